@@ -1,9 +1,13 @@
 #!/bin/bash
-# usage: seedrun.sh <seed name> <property> [extra vcheck args]: applies the seeded patch to /repo, runs the check, restores /repo.
+# usage: seedrun.sh <seed name> <property> [extra vcheck args]
+# Applies the seeded patch to a scratch worktree of /repo (never to /repo itself, so that checks running
+# concurrently against /repo are not disturbed), runs the check against it and removes the worktree.
+# Evidence and replays of the experiment go to /tmp, not to /verif/evidence.
 NAME=$1; PROP=$2; shift 2
-cp /verif/evidence/$PROP.json /tmp/evidence_$PROP.bak 2>/dev/null
-cd /repo && git apply /verif/seeded/$NAME/patch.diff || exit 2
-cd /verif && ./bin/vcheck run "$@" $PROP > /tmp/seedrun_${NAME}_${PROP}.log 2>&1; RC=$?
-cd /repo && git checkout -- . 
-cp /verif/evidence/$PROP.json /tmp/seedrun_${NAME}_${PROP}.evidence.json 2>/dev/null; cp /tmp/evidence_$PROP.bak /verif/evidence/$PROP.json 2>/dev/null
+WT=/tmp/seedwt_${NAME}_${PROP}_$$
+git -C /repo worktree add -q --detach $WT HEAD || exit 2
+( cd $WT && git apply /verif/seeded/$NAME/patch.diff ) || { git -C /repo worktree remove --force $WT; exit 2; }
+mkdir -p /tmp/seedev_${NAME}_${PROP}
+cd /verif && VERIF_REPO=$WT VERIF_EVIDENCE_DIR=/tmp/seedev_${NAME}_${PROP} ./bin/vcheck run "$@" $PROP > /tmp/seedrun_${NAME}_${PROP}.log 2>&1; RC=$?
+git -C /repo worktree remove --force $WT; git -C /repo worktree prune
 echo "seed=$NAME property=$PROP exit=$RC"; grep -E "^VIOLATION|^KNOWN|^INCONCLUSIVE|^OK|detail:" /tmp/seedrun_${NAME}_${PROP}.log | cut -c1-260 | head -8
